@@ -8,7 +8,7 @@ from ..model import AnalysisError, walk_no_nested, params_of, TIMEDLIST
 from .. import report as R
 from ..report import RuleSpec
 from .. import codec as C
-from .common import (CTL, CONVERTERS, conv_qual, converter_entries, fn_loc, short, unparse, attr_chain,
+from .common import (call_name, CTL, CONVERTERS, conv_qual, converter_entries, fn_loc, short, unparse, attr_chain,
                      concrete_classes)
 
 CAST = "reamber.algorithms.convert.ConvertBase.ConvertBase.cast"
@@ -625,6 +625,54 @@ def rule_r9(ctx):
     return pair_insts(ctx, "C08.R9")
 
 
+
+def _container_fields(M) -> set:
+    """names of dataclass fields (of any chart / mapset metadata class) annotated as a mutable container"""
+    out = set()
+    for c, k in M.classes.items():
+        for st in k.node.body:
+            if isinstance(st, ast.AnnAssign) and isinstance(st.target, ast.Name):
+                a = unparse(st.annotation)
+                if a.split("[")[0] in ("List", "Dict", "list", "dict", "Set", "set", "typing.List", "typing.Dict"):
+                    out.add(st.target.id)
+    return out
+
+
+def rule_r10(ctx) -> List[R.Inst]:
+    """the converted chart owns its containers: a list / dict valued metadata field of the source is copied, not handed over
+    (`qua.tags = osu.tags` makes `qua.tags.append(...)` change the source chart)"""
+    M = ctx.M
+    insts = []
+    cont = _container_fields(M)
+    COPY = ("list", "dict", "set", "tuple", "copy", "deepcopy", "sorted")
+    for cv in convs(ctx):
+        params = {a.arg for a in cv.fn.node.args.args if a.arg not in ("cls", "self")}
+        # loop variables over a source parameter are sources too
+        src = set(params)
+        for n in ast.walk(cv.fn.node):
+            if isinstance(n, ast.For) and isinstance(n.target, ast.Name) and any(
+                    isinstance(x, ast.Name) and x.id in src for x in ast.walk(n.iter)):
+                src.add(n.target.id)
+        found = False
+        for n in ast.walk(cv.fn.node):
+            if isinstance(n, ast.Assign) and len(n.targets) == 1 and isinstance(n.targets[0], ast.Attribute) and \
+                    isinstance(n.value, ast.Attribute) and isinstance(n.value.value, ast.Name) and n.value.value.id in src and \
+                    n.value.attr in cont:
+                found = True
+                insts.append(R.viol("C08.R10", f"{cv.name}:{n.targets[0].attr}", cv.file, n.lineno,
+                                    f"'{unparse(n)}' hands the source chart's own {n.value.attr} container to the result: changing "
+                                    f"the result's {n.targets[0].attr} afterwards changes the source", construct=f"{cv.name}: {unparse(n)}"))
+            elif isinstance(n, ast.Assign) and len(n.targets) == 1 and isinstance(n.targets[0], ast.Attribute) and \
+                    isinstance(n.value, ast.Call) and call_name(n.value) in COPY and n.value.args and \
+                    isinstance(n.value.args[0], ast.Attribute) and isinstance(n.value.args[0].value, ast.Name) and \
+                    n.value.args[0].value.id in src and n.value.args[0].attr in cont:
+                found = True
+                insts.append(R.ok("C08.R10", f"{cv.name}:{n.targets[0].attr}", cv.file, n.lineno, idiom=f"{call_name(n.value)}(source.{n.value.args[0].attr})"))
+        if not found:
+            insts.append(R.ok("C08.R10", f"{cv.name}:containers", cv.file, cv.fn.node.lineno, idiom="no container-valued field is taken from the source"))
+    return insts
+
+
 def rule_dep(ctx):
     """obligations inherited from shared code reached through the call graph (sa/props/deps.py)"""
     from .deps import dep_insts
@@ -641,6 +689,7 @@ SPECS = [
     RuleSpec("C08.R7", rule_r7, 35, "A2", "empty()/cast() results have exactly the declared fields, no undefined cells"),
     RuleSpec("C08.R8", rule_r8, 1, "A4", "label-agnostic copy in cast()"),
     RuleSpec("C08.R9", rule_r9, 3, "A1", "paired lookup tables (keys <-> chart type / mode, sample set code <-> name) are mutually consistent"),
+    RuleSpec("C08.R10", rule_r10, 17, "A3", "container-valued metadata is copied into the result, not shared with the source"),
     RuleSpec("C08.D", rule_dep, 1, "M0", "rules of the shared code (timing engine, list classes, stacker) that the operations of this property reach"),
 ]
 
